@@ -199,7 +199,7 @@ def rule_xlsx_writer(ctx):
     ctx.res.minimum("O16.5", 1)
 
     def cell(ch):
-        rows = ch.choose("rows", [[["a"]], [["a", "b"], ["c", "d"]], [["a", "b", "c"], ["d"]], [["1", "", "x"]], [["", "a"], ["b", ""]]])
+        rows = ch.choose("rows", [[["a"]], [["a", "b"], ["c", "d"]], [["a", "b", "c"], ["d"]], [["1", "", "x"]], [["", "a"], ["b", ""]], [["a"], []], [[], ["a"]]])
         entry = ch.choose("written with", ["write_row", "write_rows"])
         # xlsxwriter reports what it could not store through the return code: 0 = stored, -1 = outside the sheet,
         # -2 = text longer than 32767 characters (truncated)
@@ -239,10 +239,19 @@ def rule_xlsx_writer(ctx):
         # an empty item may be stored as an empty string or left out (both read back as ""), but it keeps its column
         expected = [("write_string", y, x, item) for y, row in enumerate(rows) for x, item in enumerate(row) if item != ""] + [("close",)]
         empty_places = {(y, x) for y, row in enumerate(rows) for x, item in enumerate(row) if item == ""}
-        stored = [entry_ for entry_ in log if not (entry_[0] == "write_string" and len(entry_) == 4 and entry_[3] == "" and entry_[1:3] in empty_places)]
+        # a row without any item is a row of the table too: something (an empty text) has to be stored in its line, or the
+        # rows after it move up and a trailing one disappears when the sheet is read back
+        empty_lines = [y for y, row in enumerate(rows) if not row]
+        written_lines = {entry_[1] for entry_ in log if entry_[0] in ("write_string", "write")}
+        # an empty line between stored lines is part of the sheet anyway; one after the last stored line is not
+        lost = [y for y in empty_lines if y not in written_lines and not any(line > y for line in written_lines)]
+        if lost and outcome == "written":
+            return (key, "row %d (no items, last of the table) leaves nothing in the sheet" % lost[0], "every row keeps its line")
+        stored = [entry_ for entry_ in log if not (entry_[0] == "write_string" and len(entry_) == 4 and entry_[3] == ""
+                                                   and (entry_[1:3] in empty_places or entry_[1] in empty_lines))]
         return (key, (outcome, stored), ("written", expected))
 
-    decide(ctx, "O16.5", "XlsxRowWriter(write_string at line/cell)", "cutplace.rowio.XlsxRowWriter.write_row", cell, min_cells=30, max_report=4)
+    decide(ctx, "O16.5", "XlsxRowWriter(write_string at line/cell)", "cutplace.rowio.XlsxRowWriter.write_row", cell, min_cells=40, max_report=4)
 
 
 def rule_xlsx_writer_rejected_rows(ctx):
